@@ -51,6 +51,7 @@ func withHistory(pres []string, scs ...*explore.Scenario) []*explore.Scenario {
 	var out []*explore.Scenario
 	for _, sc := range scs {
 		for _, pre := range pres {
+			pre := pre // (the module's language version predates per-iteration loop variables)
 			c := *sc
 			base := sc.Run
 			c.Name = sc.Name + "/after=" + pre
@@ -94,6 +95,7 @@ func withConfig(cfgs []string, scs ...*explore.Scenario) []*explore.Scenario {
 	var out []*explore.Scenario
 	for _, sc := range scs {
 		for _, cfg := range cfgs {
+			cfg := cfg
 			c := *sc
 			base := sc.Run
 			c.Name = sc.Name + "/with=" + cfg
@@ -118,5 +120,5 @@ func configKinds(tier string) []string {
 	if tier == "thorough" {
 		return env.ConfigKinds
 	}
-	return []string{"stats2+interceptors", "chain+stats", "stats2+chain+services+serialize"}
+	return []string{"stats2+interceptors", "chain+stats", "stats2+chain+services+serialize", "demux", "via-rewriting-proxy", "via-rewriting-proxy-nocallback+stats"}
 }
